@@ -287,7 +287,7 @@ def check(case, ctx):
             # ... and that other step RUNS (in a flow of its own) before this one does
             from vlib.kernel import run_steps
             zz = [{'name': 'zz%d' % i, 'fields': [{'name': 'zzz_decoy', 'type': 'string'}, {'name': 'q', 'type': 'string'}],
-                   'rows': [{'zzz_decoy': 'd', 'q': 'x'}]} for i in (1, 2)]
+                   'rows': [{'zzz_decoy': 'd%d' % i, 'q': 'x'}], 'pk': ['zzz_decoy']} for i in (1, 2)]
             try:
                 run_steps([decoy], gen.descriptor_of(zz), gen.tables_of(zz))
             except Exception as e:
@@ -475,6 +475,10 @@ def check(case, ctx):
         got_f = sorted(n for n, _ in schema_sig(out_desc, ti))
         if got_f != sorted(case['fields']):
             raise Violation('concat:target-fields', {'got': got_f, 'expected': sorted(case['fields'])})
+        tpk = out_desc['resources'][ti]['schema'].get('primaryKey', [])
+        tpk = tpk if isinstance(tpk, list) else [tpk]
+        if not set(tpk) <= set(got_f) or (tpk and not any(r.get('pk') for r in pkg)):
+            raise Violation('concat:target-primary-key', {'got': tpk, 'target_fields': got_f})
     # conservation of tagged rows (nothing lost / invented) for ops that only move rows
     if op in ('delete', 'duplicate') or (op == 'append'):
         tags_in = sorted(r['_tag'] for t in tables for r in t)
